@@ -139,6 +139,9 @@ func genOp(table []string) *rapid.Generator[opSpec] {
 				for i := range op.Behave {
 					op.Behave[i] = rapid.SampledFrom([]int{0, 0, 0, 1, 1, 2, 2}).Draw(t, "behave")
 				}
+				if op.Behave[2] == 1 && rapid.IntRange(0, 2).Draw(t, "flips_deletion") == 0 {
+					op.Behave[2] = 3
+				}
 			}
 		case "cancelsub", "cancelhook":
 			op.Target = rapid.IntRange(0, 5).Draw(t, "target")
